@@ -176,9 +176,9 @@ AXES = [
             ("lower", ax_t03([(1, F(0), "b4")], True)),
         ],
     ),
-    ("t08", [("m1q", ax_t08([(1, F(1, 4), "01")], {"01": "133.337"})), ("two", ax_t08([(0, F(1, 2), "0A"), (2, F(0), "02")], {"0A": "90.5", "02": "187.5"})), ("at00", ax_t08([(0, F(0), "01")], {"01": "60.001"}))]),
+    ("t08", [("m1q", ax_t08([(1, F(1, 4), "01")], {"01": "133.337"})), ("two", ax_t08([(0, F(1, 2), "0A"), (2, F(0), "02")], {"0A": "90.5", "02": "187.5"})), ("at00", ax_t08([(0, F(0), "01")], {"01": "60.001"})), ("id-lower-0b", ax_t08([(1, F(1, 2), "0b")], {"0b": "150.5"}))]),
     ("ln", [("same-measure", ax_ln(0, F(3, 4))), ("next-measure", ax_ln(1, F(1, 2))), ("obj0A", ax_ln(2, F(0), "0A"))]),
-    ("wav", [("unknown", ax_wav_unknown), ("id-1A", ax_wav_id("1A")), ("id-Z9", ax_wav_id("Z9")), ("id-10", ax_wav_id("10")), ("name-with-space", lambda doc: doc["wav"].update({"01": "my file 1.wav"}))]),
+    ("wav", [("unknown", ax_wav_unknown), ("id-1A", ax_wav_id("1A")), ("id-Z9", ax_wav_id("Z9")), ("id-10", ax_wav_id("10")), ("name-with-space", lambda doc: doc["wav"].update({"01": "my file 1.wav"})), ("id-lower-0a", ax_wav_id("0a"))]),
     ("order", [(o, ax_order(o)) for o in ("reversed", "tempo_last", "by_channel")]),
     ("split", [("on", ax_split), ("later-part-first", ax_split_rev)]),
     ("misc", [("on", ax_misc)]),
@@ -218,7 +218,7 @@ def finalize(doc):
         seen.add(key)
     if doc["lnobj"]:
         for m, p, k, lane, v in doc["events"]:
-            if k == "note" and v == doc["lnobj"]:
+            if k == "note" and v.upper() == doc["lnobj"].upper():
                 doc["_invalid"] = "note id equals LNOBJ"
     lanes = {}
     for m, p, k, lane, v in sorted(doc["events"], key=lambda e: (e[0], e[1])):
